@@ -256,7 +256,8 @@ open Spec
 def isIncreaseCall (gid : String) (c : Call) : Bool :=
   match c with
   | .setDesired g _ => g == gid
-  | .describeAsgs _ | .createFleet _ | .describeStatus _ | .terminateInstances _ => true
+  | .describeAsgs names => names == [gid]
+  | .createFleet _ | .describeStatus _ | .terminateInstances _ => true
   | .attach g _ => g == gid
   | _ => false
 
@@ -354,8 +355,12 @@ def isIncreaseCallExact (gid : String) (base d : Int) (c : Call) : Bool :=
   match c with
   | .setDesired g v => g == gid && v == base + d
   | .createFleet r => r.total == d && r.minTarget == d && r.fleetType == "instant"
-  | .describeAsgs _ => true
+  | .describeAsgs names => names == [gid]
   | c => isAttachPhaseCall gid c
+
+theorem exact_isIncrease {gid : String} {base d : Int} {c : Call} (h : isIncreaseCallExact gid base d c = true) :
+    isIncreaseCall gid c = true := by
+  cases c <;> simp [isIncreaseCallExact, isIncreaseCall, isAttachPhaseCall] at h ⊢ <;> first | exact h | exact h.1
 
 theorem attachPhase_isExact {gid : String} {base d : Int} {c : Call} (h : isAttachPhaseCall gid c = true) :
     isIncreaseCallExact gid base d c = true := by
@@ -367,19 +372,19 @@ theorem oneShot_exact (o : Oracle) (k : Nat) (cfg : AwsCfg) (g : PGroup) (d : In
   unfold oneShot at he; dsimp only at he
   split at he
   · split at he
-    · simp [doCall_j] at he; subst he; rfl
+    · simp [doCall_j] at he; subst he; simp [isIncreaseCallExact]
     · split at he
       · split at he
         · simp only [List.mem_append, doCall_j, List.mem_singleton] at he
           rcases he with he | he <;> subst he <;> simp [isIncreaseCallExact, mkFleetReq]
         · simp only [List.mem_append, doCall_j, List.mem_singleton] at he
           rcases he with (he | he) | he
-          · subst he; rfl
+          · subst he; simp [isIncreaseCallExact]
           · subst he; simp [isIncreaseCallExact, mkFleetReq]
           · exact attachPhase_isExact (attachInstances_phase o _ cfg g _ e he)
       · simp only [List.mem_append, doCall_j, List.mem_singleton] at he
         rcases he with he | he <;> subst he <;> simp [isIncreaseCallExact, mkFleetReq]
-  · simp [doCall_j] at he; subst he; rfl
+  · simp [doCall_j] at he; subst he; simp [isIncreaseCallExact]
 
 theorem increaseSize_exact (o : Oracle) (k : Nat) (cfg : AwsCfg) (g : PGroup) (d : Int) :
     ∀ e ∈ (increaseSize o k cfg g d).j, isIncreaseCallExact g.id g.asg.desired d e.call = true := by
@@ -396,24 +401,8 @@ theorem increaseSize_exact (o : Oracle) (k : Nat) (cfg : AwsCfg) (g : PGroup) (d
         subst he; simp [isIncreaseCallExact]
 
 theorem oneShot_entries (o : Oracle) (k : Nat) (cfg : AwsCfg) (g : PGroup) (d : Int) :
-    ∀ e ∈ (oneShot o k cfg g d).j, isIncreaseCall g.id e.call = true := by
-  intro e he
-  unfold oneShot at he; dsimp only at he
-  split at he
-  · split at he
-    · simp [doCall_j] at he; subst he; rfl
-    · split at he
-      · split at he
-        · simp only [List.mem_append, doCall_j, List.mem_singleton] at he
-          rcases he with he | he <;> (subst he; rfl)
-        · simp only [List.mem_append, doCall_j, List.mem_singleton] at he
-          rcases he with (he | he) | he
-          · subst he; rfl
-          · subst he; rfl
-          · exact attachInstances_entries o _ cfg g _ e he
-      · simp only [List.mem_append, doCall_j, List.mem_singleton] at he
-        rcases he with he | he <;> (subst he; rfl)
-  · simp [doCall_j] at he; subst he; rfl
+    ∀ e ∈ (oneShot o k cfg g d).j, isIncreaseCall g.id e.call = true :=
+  fun e he => exact_isIncrease (oneShot_exact o k cfg g d e he)
 
 theorem increaseSize_entries (o : Oracle) (k : Nat) (cfg : AwsCfg) (g : PGroup) (d : Int) :
     ∀ e ∈ (increaseSize o k cfg g d).j, isIncreaseCall g.id e.call = true := by
@@ -538,15 +527,21 @@ theorem nodesOf_withCache (dry : Bool) (st0 : GState) (nodes : List Node) (c : C
     nodesOf dry (withCache st0 nodes) c l = nodesOf dry st0 c l := by
   unfold nodesOf; simp [classify_withCache]
 
-theorem newNodeMetrics_entries (o : Oracle) (k : Nat) (st : GState) (nodes : List Node) :
-    ∀ e ∈ newNodeMetrics o k st nodes, ∃ id b, e = ⟨.describeInstances id, b⟩ := by
+theorem newNodeMetrics_entries' (o : Oracle) (k : Nat) (st : GState) (nodes : List Node) :
+    ∀ e ∈ newNodeMetrics o k st nodes, ∃ n ∈ nodes, ∃ b, e = ⟨.describeInstances (instanceIdOfProviderId n.providerID), b⟩ := by
   intro e he
   unfold newNodeMetrics at he
   split at he
-  · simp only [List.mem_map] at he
-    obtain ⟨n, _, rfl⟩ := he
-    exact ⟨_, _, rfl⟩
+  · simp only [List.mem_map, List.mem_filter] at he
+    obtain ⟨n, ⟨hn, _⟩, rfl⟩ := he
+    exact ⟨n, hn, _, rfl⟩
   · simp at he
+
+theorem newNodeMetrics_entries (o : Oracle) (k : Nat) (st : GState) (nodes : List Node) :
+    ∀ e ∈ newNodeMetrics o k st nodes, ∃ id b, e = ⟨.describeInstances id, b⟩ := by
+  intro e he
+  obtain ⟨n, _, b, rfl⟩ := newNodeMetrics_entries' o k st nodes e he
+  exact ⟨_, b, rfl⟩
 
 theorem RemovalEntry_congr {g g' : PGroup} (h : g'.asg.instances = g.asg.instances) {cands : List Node} {e : Entry}
     (he : RemovalEntry g' cands e) : RemovalEntry g cands e := by
@@ -559,7 +554,8 @@ theorem RemovalEntry_congr {g g' : PGroup} (h : g'.asg.instances = g.asg.instanc
 /-- Everything a group scan can put in its journal. -/
 inductive ScanEntry (globalDry : Bool) (cfg : GroupCfg) (st0 : GState) (g : PGroup) (view : View)
     (nowMock nowReal : Int) : Entry → Prop
-  | metrics (id : String) (b : Bool) : ScanEntry globalDry cfg st0 g view nowMock nowReal ⟨.describeInstances id, b⟩
+  | metrics (n : Node) (hn : n ∈ view.nodes) (b : Bool) :
+      ScanEntry globalDry cfg st0 g view nowMock nowReal ⟨.describeInstances (instanceIdOfProviderId n.providerID), b⟩
   | force {e : Entry}
       (he : RemovalEntry g (forceCands (globalDry || cfg.dryMode) view.pods (nodesOf (globalDry || cfg.dryMode) st0 .force view.nodes)) e) :
       ScanEntry globalDry cfg st0 g view nowMock nowReal e
@@ -646,8 +642,8 @@ theorem scanDecide_entries (rnd : Rat → Rat) (o : Oracle) (k : Nat) (globalDry
   intro e he
   have hM : ∀ e ∈ newNodeMetrics o k st view.nodes, ScanEntry globalDry cfg st0 g view nowMock nowReal e := by
     intro e he
-    obtain ⟨id, b, rfl⟩ := newNodeMetrics_entries o k st view.nodes e he
-    exact .metrics id b
+    obtain ⟨n, hn, b, rfl⟩ := newNodeMetrics_entries' o k st view.nodes e he
+    exact .metrics n hn b
   unfold scanDecide at he; dsimp only at he
   split at he
   · exact hM e he
